@@ -1045,7 +1045,8 @@ func init() {
 	// (one client each, running concurrently with the other ledger's client). Whatever the features, the
 	// transactions, logs, balances and current metadata must come out identical.
 	register(Profile{Property: "C35", Name: "feature-equivalence", Gen: func(r *RNG, seed uint64, tier string) (*Scenario, *ExploreCfg) {
-		sc := &Scenario{Property: "C35", Profile: "feature-equivalence", Knobs: randomKnobs(r), Checks: []string{"feature-equivalence", "hash-chain", "pcv", "conservation", "replay"}}
+		sc := &Scenario{Property: "C35", Profile: "feature-equivalence", Knobs: randomKnobs(r), Checks: []string{"feature-equivalence", "hash-chain", "pcv", "conservation", "replay", "reads-respect-features"},
+			Params: map[string]string{"lenient_reads": "1"}}
 		g := &gen{r: r, sc: sc}
 		draw := func() map[string]string {
 			f := map[string]string{
@@ -1108,6 +1109,8 @@ func init() {
 				cp.ID = fmt.Sprintf("c%d.%d", ci, i)
 				ops = append(ops, cp)
 			}
+			// reads that may need a feature the ledger has disabled (read side of the property)
+			ops = append(ops, featureReads(r, l, fmt.Sprintf("c%d", ci), txN)...)
 			sc.Clients = append(sc.Clients, ops)
 		}
 		ex := defaultExplore(seed, 0, 0)
